@@ -643,8 +643,10 @@ class Exec:
                 if isinstance(v, ArrList):
                     return v.n
                 if isinstance(v, DictV):
-                    sz = self.fv('dictsize', I)      # size of a dict is not tracked: any non-negative integer
+                    sz = self.fv('dictsize', I)      # size of a dict is not tracked: any non-negative integer, zero exactly when it is empty
                     st.assume(sz >= 0)
+                    if v.nonempty is not None:
+                        st.assume((sz > 0) == v.nonempty)
                     return sz
                 if isinstance(v, Tup):
                     return IntVal(len(v.items))
@@ -927,6 +929,13 @@ class Exec:
                 L = st.env[name]
                 self.safety(st, 'slice-nonneg', s, lo >= 0)
                 st.env[name] = ArrList(L.arrs, If(lo < L.n, lo, L.n))
+            elif isinstance(t, ast.Subscript) and isinstance(t.value, ast.Name) and t.value.id in st.env and not isinstance(t.slice, ast.Slice) \
+                    and isinstance(st.env[t.value.id], (ArrList, z3.SeqRef)) and _const_int(self.ev(t.slice, st)) == -1:
+                # del stack[-1]  ==  stack.pop() without using the value (IndexError on an empty list, like pop)
+                call = ast.Call(func=ast.Attribute(value=ast.Name(id=t.value.id, ctx=ast.Load()), attr='pop', ctx=ast.Load()), args=[], keywords=[])
+                ast.copy_location(call, s); ast.fix_missing_locations(call)
+                self.node_ord[id(call)] = self.ordn(s)
+                self.ev(call, st)
             else:
                 raise OutOfSubset('statement Delete')
         return [('fall', st)]
